@@ -44,6 +44,9 @@ BROKEN_SCALARS = ['%', '%s', '%(x)s', '%d kg', '{0}', '{x}', '100%%', '2020-13-0
                   # repeated names: column, grid tag, column tag, dict tag (accepted or refused, but only with a ValueError)
                   '<<ver:"3.0"\nsite,dis,site\n"a","b","c"\n>>', '[<<ver:"3.0"\na,a\n1,2\n>>]', '{a:1 a:2}', '{a a}', '<<ver:"3.0" m:1 m:2\na\n1\n>>',
                   '<<ver:"3.0"\na x:1 x:2\n1\n>>', '{k:<<ver:"3.0"\nb,b\n1,2\n>>}', '<<ver:"3.0"\na\n1,2\n>>', '<<ver:"3.0"\na,b\n1\n>>',
+                  # date-times without an offset, with a zone name, at wall-clock times that do not exist / exist twice there
+                  '2021-03-28T01:30:00 London', '2021-10-31T01:30:00 London', '2021-03-14T02:30:00 New_York', '2021-11-07T01:30:00 New_York',
+                  '2021-06-01T12:00:00 London', '2021-06-01T12:00:00 Nowhere', '2021-04-04T02:30:00 Lord_Howe', '2021-03-28T01:30:00.5 London',
                   '9999-12-31T23:59:59Z Brisbane', '0001-01-01T00:00:00Z New_York', '0001-01-01T00:00:00+14:00', '9999-12-31T23:59:59-12:00 UTC',
                   '0001-01-01T00:00:00Z UTC', '9999-12-31T23:59:59.999999Z Chatham', '12:34:56.', '12:34:56.1234567890123', '1' * 400, '"' + 'a' * 5000 + '"', '[' * 3 + ']' * 3, '{a:{b:{c:1}}}']
 
